@@ -14,8 +14,17 @@
 (*    octree in queue order; every Branch index is rebased by the number   *)
 (*    of groups that precede, every Leaf index by the number of vertices   *)
 (*    that precede; the rebased local root is stored in the placeholder.   *)
-(* 4. Fix-up, in reverse split order: a split cell whose children are all  *)
-(*    Empty (all Full) becomes Empty (Full), otherwise a Branch.           *)
+(* 4. Fix-up, in reverse split order (check_done): a split cell whose      *)
+(*    children are all Empty (all Full) becomes Empty (Full); if they are  *)
+(*    all leaves (Leaf / Empty / Full) it MAY be collapsed into one Leaf   *)
+(*    whose vertex is appended to the merged vertex array (whether it is   *)
+(*    depends on the geometry: every subset of the splits is tried);       *)
+(*    otherwise it stays a Branch.  When it does not stay a Branch its     *)
+(*    children group is dropped (at the tail of the array) or overwritten  *)
+(*    with placeholders (in the middle): dead groups are never looked at   *)
+(*    again.  (The collapse and the dead groups were added to the model    *)
+(*    after the first recorded builds disagreed with it: see               *)
+(*    Trace_OctreeMerge.tla.)                                              *)
 (*                                                                         *)
 (* The arity A is a constant (the rebasing is the same for 2 and 8).       *)
 (* Meaning(o, cell) is the tree of vertex labels a cell denotes.  TLC      *)
@@ -78,15 +87,29 @@ Merge(o, queue, locals, i) ==
 
 (* ---- 4. fix-up in reverse split order *)
 Get(o, pos) == IF pos[1] = -1 THEN o.root ELSE o.groups[pos[1] + 1][pos[2]]
-Done(o, g) == LET kids == o.groups[g + 1] IN
-              IF \A j \in 1..A : kids[j] = E THEN E ELSE IF \A j \in 1..A : kids[j] = F THEN F ELSE Branch(g)
-RECURSIVE Fixup(_, _, _)
-Fixup(o, fixup, k) == IF k = 0 THEN o ELSE Fixup(Put(o, fixup[k][1], Done(o, fixup[k][2])), fixup, k - 1)
+LeafLike(cell) == cell[1] \in {"L", "E", "F"}
+\* <<new cell, octree>>: the octree gains a vertex when the group is collapsed into a leaf
+Done(o, g, collapse) ==
+  LET kids == o.groups[g + 1] IN
+  IF \A j \in 1..A : kids[j] = E THEN <<E, o>>
+  ELSE IF \A j \in 1..A : kids[j] = F THEN <<F, o>>
+  ELSE IF collapse /\ \A j \in 1..A : LeafLike(kids[j])
+       THEN <<Leaf(Len(o.verts), 1), [o EXCEPT !.verts = Append(o.verts, -1 - g)]>>
+       ELSE <<Branch(g), o>>
+\* the children group of a cell that did not stay a Branch: dropped at the tail, placeholders in the middle
+Retire(o, g) == IF g + 1 = Len(o.groups) THEN [o EXCEPT !.groups = SubSeq(o.groups, 1, g)]
+                ELSE [o EXCEPT !.groups[g + 1] = [j \in 1..A |-> I]]
+RECURSIVE Fixup(_, _, _, _)
+Fixup(o, fixup, k, coll) ==
+  IF k = 0 THEN o
+  ELSE LET d == Done(o, fixup[k][2], fixup[k][2] \in coll)
+           o2 == IF d[1][1] = "B" THEN d[2] ELSE Retire(d[2], fixup[k][2])
+       IN Fixup(Put(o2, fixup[k][1], d[1]), fixup, k - 1, coll)
 
-Build(locals) ==
+Build(locals, coll) ==
   LET s == Split(<< <<-1, 0>> >>, 0, <<>>)
       start == Oct(I, [g \in 1..s.ngroups |-> [j \in 1..A |-> I]], <<>>)
-  IN [split |-> s, tree |-> Fixup(Merge(start, s.queue, locals, 1), s.fixup, Len(s.fixup))]
+  IN [split |-> s, tree |-> Fixup(Merge(start, s.queue, locals, 1), s.fixup, Len(s.fixup), coll)]
 
 (* ---- properties *)
 S0 == Split(<< <<-1, 0>> >>, 0, <<>>)
@@ -97,11 +120,19 @@ Simplify(m) == IF m[1] # "branch" THEN m
                ELSE LET ks == [j \in 1..A |-> Simplify(m[2][j])] IN
                     IF \A j \in 1..A : ks[j] = <<"E">> THEN <<"E">>
                     ELSE IF \A j \in 1..A : ks[j] = <<"F">> THEN <<"F">> ELSE <<"branch", ks>>
+\* a group is alive if the split cell that reserved it is still a Branch to it, and so on up to the root
+RECURSIVE GroupAlive(_, _, _)
+GroupAlive(b, g, fuel) ==
+  /\ fuel > 0 /\ g < Len(b.tree.groups)
+  /\ \E k \in 1..Len(b.split.fixup) :
+        /\ b.split.fixup[k][2] = g
+        /\ (b.split.fixup[k][1][1] = -1 \/ GroupAlive(b, b.split.fixup[k][1][1], fuel - 1))
+        /\ Get(b.tree, b.split.fixup[k][1]) = Branch(g)
 Isomorphic(b, locals) == \A i \in 1..NTasks :
-   LET pos == b.split.queue[i]
-       merged == Get(b.tree, pos)
-   IN \/ Simplify(Meaning(b.tree, merged)) = Simplify(Meaning(locals[i], locals[i].root))
+   LET pos == b.split.queue[i] IN
       \/ pos[1] = -1      \* (no split at all: the root is the only task)
+      \/ ~GroupAlive(b, pos[1], 8)
+      \/ Simplify(Meaning(b.tree, Get(b.tree, pos))) = Simplify(Meaning(locals[i], locals[i].root))
 RECURSIVE CellsOf(_, _)
 CellsOf(o, cell) == IF cell[1] = "B" THEN {cell} \cup UNION {CellsOf(o, o.groups[cell[2] + 1][j]) : j \in 1..A} ELSE {cell}
 InBounds(o) == \A cell \in CellsOf(o, o.root) :
@@ -110,12 +141,12 @@ InBounds(o) == \A cell \in CellsOf(o, o.root) :
 NoInvalid(o) == \A cell \in CellsOf(o, o.root) : cell # I
 (* every vertex of every worker is in the merged array exactly once, in queue order *)
 VertsKept(b, locals) == LET RECURSIVE Cat(_) Cat(i) == IF i > NTasks THEN <<>> ELSE locals[i].verts \o Cat(i + 1)
-                        IN b.tree.verts = Cat(1)
+                        IN Len(b.tree.verts) >= Len(Cat(1)) /\ SubSeq(b.tree.verts, 1, Len(Cat(1))) = Cat(1)
 
 Init == c = <<"pick", <<>> >>
 Next == \/ c[1] = "pick" /\ Len(c[2]) < NTasks /\ \E o \in Family(Len(c[2]) + 1) : c' = <<"pick", Append(c[2], o)>>
-        \/ c[1] = "pick" /\ Len(c[2]) = NTasks /\ c' = <<"case", c[2]>>
+        \/ c[1] = "pick" /\ Len(c[2]) = NTasks /\ \E coll \in SUBSET (0..(S0.ngroups - 1)) : c' = <<"case", c[2], coll>>
 Spec == Init /\ [][Next]_vars
-Correct == c[1] = "case" => LET b == Build(c[2]) IN
+Correct == c[1] = "case" => LET b == Build(c[2], c[3]) IN
              /\ InBounds(b.tree) /\ NoInvalid(b.tree) /\ VertsKept(b, c[2]) /\ Isomorphic(b, c[2])
 ==============================================================================
